@@ -989,7 +989,7 @@ def main(check, tier_):
         'faults_fired': faults,
         'refusals_by_reason': {k[8:]: v for k, v in st.items() if k.startswith('refused:')},
         'call_matrix_state_kind_outcome': {k[5:]: v for k, v in sorted(st.items()) if k.startswith('call:')},
-        'transitions': {k[11:]: v for k, v in st.items() if k.startswith('transition:')},
+        'state_transitions': {k[11:]: v for k, v in st.items() if k.startswith('transition:')},
         'probes': {k: v for k, v in st.items() if k.split(':')[0] in ('jumpoff-entered', 'probe', 'terminal-checked',
                    'terminal-unchecked', 'tolerated', 'stop', 'jumpoff-round-all-failed', 'shadow-steps',
                    'jumpoff-entered-with-retired-co-leader', 'jumpoff-illformed-followed-unchecked',
